@@ -143,7 +143,8 @@ def run(rng: Rng, tier: str, index: int) -> RunResult:
 
 
 def _world(rng, tier, index, res, tr, ch):
-    from joserfc import jws, jwe
+    from joserfc import jws, jwe, rfc7797
+    unencoded = {}      # compact RFC 7797 tokens minted in this run -> payload (needed when detached)
     from joserfc.jwk import KeySet
     from joserfc.errors import InvalidKeyIdError
     sim = Sim(rng.sub("sim"), None)
@@ -256,8 +257,10 @@ def _world(rng, tier, index, res, tr, ch):
         same_kty = [k for k in owner.keys if k.kty == key.kty]
         mixed = any(kind_of(k) != kind_of(key) for k in same_kty)
         with_kid = liveness or erng.chance(0.6)
-        form = erng.pick(["compact", "flat-protected", "flat-unprotected", "general"])
+        form = erng.pick(["compact", "flat-protected", "flat-unprotected", "general", "c7797", "f7797"])
         payload = ("p-%d-%d" % (index, sim.events)).encode()
+        if form in ("c7797", "f7797") and erng.chance(0.4):
+            payload += b" (not url-safe)"
         via_callable = erng.chance(0.3)
         arg = setarg(owner.jset, via_callable)
         if not with_kid:
@@ -272,6 +275,11 @@ def _world(rng, tier, index, res, tr, ch):
         try:
             if form == "compact":
                 tok = jws.serialize_compact(dict(hdr), payload, arg, algorithms=ALLJWS)
+            elif form == "c7797":
+                tok = rfc7797.serialize_compact(dict(hdr, b64=False, crit=["b64"]), payload, arg, algorithms=ALLJWS)
+                unencoded[tok] = payload
+            elif form == "f7797":
+                tok = rfc7797.serialize_json({"protected": dict(hdr, b64=False, crit=["b64"])}, payload, arg, algorithms=ALLJWS)
             elif form == "flat-protected":
                 tok = jws.serialize_json({"protected": dict(hdr)}, payload, arg, algorithms=ALLJWS)
             elif form == "flat-unprotected":
@@ -299,11 +307,12 @@ def _world(rng, tier, index, res, tr, ch):
                 viol("produce-jws:candidates", "random pick was offered %r, the keys of the required type are %r" % (got, want), repro)
             key = same_kty[forced]
         # the emitted kid names the key that signed
-        info = rjws.verify(tok, lambda m, i: None)
+        det = payload if (isinstance(tok, str) and tok in unencoded and tok.split(".")[1] == "") else None
+        info = rjws.verify(tok, lambda m, i: None, det)
         mh = info.sigs[0].merged() if info.sigs else {}
         if mh.get("kid") != key.kid:
             viol("produce-jws:kid-not-recorded", "token header kid %r, key used %r" % (mh.get("kid"), key.kid), repro)
-        v = rjws.verify(tok, lambda m, i: key)
+        v = rjws.verify(tok, lambda m, i: key, det)
         if not v.ok:
             viol("produce-jws:not-signed-by-named-key", "token does not verify under the key its kid names: " + v.reason, repro)
         tr.add("mint-jws", form, with_kid, key.kid)
@@ -317,10 +326,15 @@ def _world(rng, tier, index, res, tr, ch):
         via_callable = erng.chance(0.3)
         arg = setarg(peer.jset, via_callable)
         expected = resolve(peer.rkeys, kid)
-        repro = {"op": "deliver-jws", "token": tok, "peer_doc": peer.doc, "signer": rk.to_jwk(signer, True), "kid": kid}
+        repro = {"op": "deliver-jws", "token": tok, "peer_doc": peer.doc, "signer": rk.to_jwk(signer, True), "kid": kid,
+                 "unencoded": unencoded[tok].hex() if isinstance(tok, str) and tok in unencoded else None}
         try:
-            if isinstance(tok, str):
+            if isinstance(tok, str) and tok in unencoded:
+                obj = rfc7797.deserialize_compact(tok, arg, unencoded[tok] if tok.split(".")[1] == "" else None, algorithms=ALLJWS)
+            elif isinstance(tok, str):
                 obj = jws.deserialize_compact(tok, arg, algorithms=ALLJWS)
+            elif "protected" in tok and b'"b64":false' in b64.dec(tok["protected"]):
+                obj = rfc7797.deserialize_json(tok, arg, algorithms=ALLJWS)
             else:
                 obj = jws.deserialize_json(tok, arg, algorithms=ALLJWS)
             outcome, exc = "ok", None
@@ -671,7 +685,15 @@ def replay(repro: dict):
             expected = resolve(rkeys, repro["kid"])
             try:
                 tok = repro["token"]
-                (jws.deserialize_compact if isinstance(tok, str) else jws.deserialize_json)(tok, ks, algorithms=ALLJWS)
+                from joserfc import rfc7797
+                if isinstance(tok, str) and repro.get("unencoded") is not None:
+                    rfc7797.deserialize_compact(tok, ks, bytes.fromhex(repro["unencoded"]) if tok.split(".")[1] == "" else None, algorithms=ALLJWS)
+                elif isinstance(tok, str):
+                    jws.deserialize_compact(tok, ks, algorithms=ALLJWS)
+                elif "protected" in tok and b'"b64":false' in b64.dec(tok["protected"]):
+                    rfc7797.deserialize_json(tok, ks, algorithms=ALLJWS)
+                else:
+                    jws.deserialize_json(tok, ks, algorithms=ALLJWS)
                 outcome, exc = "ok", None
             except Exception as e:
                 outcome, exc = "exc", e
